@@ -156,9 +156,8 @@ class Check:
             if b.startswith("Closed under"):
                 closed += 1
             elif b.startswith("Axioms:"):
-                for m in re.finditer(r"^([A-Za-z_][\w\.']*)\s*:", b, re.M):
-                    if m.group(1) != "Axioms":
-                        axioms.add(m.group(1))
+                for m in re.finditer(r"^([A-Za-z_][\w']*(?:\.[\w']+)+)", b, re.M):
+                    axioms.add(m.group(1))
         self.axioms = sorted(axioms)
         self.coverage["theorems"] = self.theorems
         self.coverage["theorems_closed_under_global_context"] = closed
